@@ -298,7 +298,9 @@ def assign_pair(kind, hs, li, ri, lname, rname, lports, rports, ln, rn):
     for s in sides:
         if kind == "direct":
             if iface in ("lag", "lagsub"):
-                s["lag"] = 1 + k
+                # one LAG per neighbour and port set
+                s["lag"] = 1 + k + 10 * sum(2 ** port_no(p) for p in (lports if s is left else rports)) + \
+                    100 * (ri if s is left else li)
             if iface in ("subif", "lagsub"):
                 s["subif"] = 100 + k
             if iface == "svi":
@@ -496,16 +498,18 @@ def expect_pairs(case, di, kind):
                     lv, rv, sv = assign_pair(kind, rule["h"], li, ri, names[li], names[ri], lports, rports,
                                              int(m[0].get("n", name_n(names[li]))), int(m[1].get("n", name_n(names[ri]))))
                     mine, other = (lv, rv) if li == di else (rv, lv)
-                    mine = combine([mine, sv])
-                    other = combine([other, sv])
-                    key = (ni, other["addr"], other.get("vrf", ""))
-                    sessions.setdefault(key, []).append((mine, other, dports))
+                    # a session = the two devices, the address of the other end, the vrf
+                    key = (ni, other["addr"], sv.get("vrf", ""))
+                    sessions.setdefault(key, []).append((mine, other, sv, dports))
+    for recs in sessions.values():
+        # the API requires an AS number for both ends; if the handlers give none nothing is expected
+        if not any("asnum" in r[0] or "asnum" in r[2] for r in recs) or not any("asnum" in r[1] or "asnum" in r[2] for r in recs):
+            raise Unspecified()
     peers, ifaces = [], []
-    pending = None
     for (ni, _, _), recs in sessions.items():
-        mine = combine([r[0] for r in recs])
-        other = combine([r[1] for r in recs])
-        ports = combine([{"ports": r[2]} for r in recs])["ports"]
+        mine = combine([x for r in recs for x in (r[0], r[2])])
+        other = combine([x for r in recs for x in (r[1], r[2])])
+        ports = combine([{"ports": r[3]} for r in recs])["ports"]
         lag, subif, svi = mine.get("lag"), mine.get("subif"), mine.get("svi")
         if (lag is not None and svi is not None) or (svi is not None and subif is not None):
             raise Conflict("lag/svi/subif combination")
@@ -535,12 +539,7 @@ def expect_pairs(case, di, kind):
                 iface = ifname
         if iface is not None:
             ifaces.append(("addr", iface, [mine["addr"], mine.get("vrf")]))
-        try:
-            peers.append(expected_peer(mine, other, names[ni], iface))
-        except Unspecified as e:
-            pending = e
-    if pending:
-        raise pending
+        peers.append(expected_peer(mine, other, names[ni], iface))
     return peers, ifaces
 
 
@@ -594,15 +593,20 @@ def _sorted_peers(peers):
 
 def expect_device(case, di):
     """-> "ValueError" | None (unspecified) | dict(peers, ifaces, globals)"""
-    try:
-        g = expect_globals(case, di)
-        dp, dif = expect_pairs(case, di, "direct")
-        vp = expect_virtual(case, di)
-        ip_, iif = expect_pairs(case, di, "indirect")
-    except Conflict:
-        return "ValueError"
-    except Unspecified:
+    out, conflict, unspecified = [], False, False
+    for fn in (lambda: expect_globals(case, di), lambda: expect_pairs(case, di, "direct"), lambda: (expect_virtual(case, di), []),
+               lambda: expect_pairs(case, di, "indirect")):
+        try:
+            out.append(fn())
+        except Conflict:
+            conflict = True
+        except Unspecified:
+            unspecified = True
+    if unspecified:
         return None
+    if conflict:
+        return "ValueError"
+    g, (dp, dif), (vp, _), (ip_, iif) = out
     return dict(peers=_sorted_peers(dp + vp + ip_), ifaces=sorted(dif + iif, key=str), globals=g)
 
 
@@ -708,10 +712,8 @@ def mirror_problems(case, results):
                 mine = {str(ip_interface(x).ip) for x in results[a]["_addrs"].get(p["interface"], [])}
                 cands = []
                 for q in back:
-                    if q["interface"] is None:
-                        continue
                     theirs = {str(ip_interface(x).ip) for x in results[b]["_addrs"].get(q["interface"], [])}
-                    if q["addr"] in mine and p["addr"] in theirs and q["vrf_name"] == p["vrf_name"]:
+                    if q["addr"] in mine and (q["interface"] is None or p["addr"] in theirs) and q["vrf_name"] == p["vrf_name"]:
                         cands.append(q)
                 if not cands:
                     problems.append(dict(on=names[a], peer=p["addr"], to=names[b],
@@ -747,12 +749,7 @@ def _multiset_norm(r):
     """for the comparison between registration orders: lists that are concatenations compared as multisets"""
     if not isinstance(r, dict):
         return r
-    r = deepcopy(_strip(r))
-    for p in r["peers"]:
-        ln = p["options"].get("listen_network")
-        if ln:
-            p["options"]["listen_network"] = sorted(ln)
-    return r
+    return _strip(r)     # peers carry no concatenated fields; the concatenated global options are sorted in actual_globals
 
 
 def check_exec(case):
@@ -791,7 +788,7 @@ def check_exec(case):
         mp = mirror_problems(case, results)
         if mp:
             fails.append((K + "not-mirrored", "registration order %s: sessions are not mirrored" % list(order), [], mp[:3]))
-        norm = [_multiset_norm(r) for r in results]
+        norm = [_multiset_norm(r) if expected[i] is not None else None for i, r in enumerate(results)]
         if first is None:
             first = norm
         elif norm != first:
@@ -967,7 +964,7 @@ def exec_cases(tier, seed):
             if rule["kind"] == "indirect" and self_matching(case, rule):
                 continue
             yield case
-    count = 2600 if tier == "quick" else 52000
+    count = 2600 if tier == "quick" else 40000
     for i in range(count):
         yield ("random", i)
 
@@ -1113,6 +1110,8 @@ def gen_value(hint, rnd, key=None):
     if origin is Annotated:
         return gen_value(args[0], rnd, key)
     if origin is Union or origin is types.UnionType:
+        if all(isinstance(x, type) and issubclass(x, BaseMeshModel) for x in args):
+            return gen_value(args[0], rnd, key)
         return gen_value(rnd.choice(args), rnd, key)
     if hint is type(None):
         return None
@@ -1205,7 +1204,7 @@ def merge_instances(case):
 def _try(fn):
     try:
         return ("ok", fn())
-    except MergeForbiddenError:
+    except (MergeForbiddenError, RefConflict):
         return ("conflict", None)
 
 
@@ -1270,7 +1269,7 @@ def check_merge(case):
     # order independence (Concat as multisets; UseFirst/UseLast are order dependent by declaration)
     if type(a) is type(b):
         ab, ba = _try(lambda: dump(bm.merge(a, b))), _try(lambda: dump(bm.merge(b, a)))
-        if ab[0] != ba[0] and not _has_kind(type(a), {"Forbid"}) or (ab[0] == ba[0] == "ok" and _unordered(ab[1]) != _unordered(ba[1])):
+        if ab[0] != ba[0] or (ab[0] == "ok" and _unordered(ab[1]) != _unordered(ba[1])):
             fails.append((K + "merge-law:order", "merge(a,b) vs merge(b,a)", ab, ba))
     # associativity + variadic form, against the reference and against each other
     if type(a) is type(b) is type(c) or "+" in case["model"]:
@@ -1282,7 +1281,7 @@ def check_merge(case):
             right = _try(lambda: dump(bm.merge(a, bm.merge(b, c))))
             if left[0] == right[0] == "ok" and left[1] != right[1]:
                 fails.append((K + "merge-law:associativity", "merge(merge(a,b),c) vs merge(a,merge(b,c))", left, right))
-            elif left[0] != right[0] and not _has_kind(type(a), {"UseFirst", "UseLast"}) and type(a) is type(b):
+            elif left[0] != right[0] and type(a) is type(b):
                 fails.append((K + "merge-law:associativity", "merge(merge(a,b),c) vs merge(a,merge(b,c)): defined on one side only",
                               left[0], right[0]))
     # NOT_SET as the first argument
@@ -1292,19 +1291,8 @@ def check_merge(case):
     return fails, nontrivial
 
 
-def _has_kind(cls, kinds, seen=None):
-    seen = seen or set()
-    if cls in seen:
-        return False
-    seen.add(cls)
-    for f, (kind, sub, hint) in schema(cls).items():
-        if kind in kinds or sub in kinds:
-            return True
-    return False
-
-
 def merge_cases(tier):
-    per_model = 150 if tier == "quick" else 2500
+    per_model = 150 if tier == "quick" else 2000
     for name in MERGE_MODELS:
         for s in range(per_model):
             yield dict(kind="merge", model=name, seed=s)
@@ -1358,7 +1346,7 @@ def run(tier="quick", seed=0, part=0, nparts=1):
              "(pairs) incl. a local model using every merger. non-trivial = some rule joins two devices / sets options / a conflict "
              "is expected (exec), or a and b share a set field or conflict (merge); distinct by the hash of the case"
              % (len(topos), 5 if tier == "thorough" else 4, "" if tier == "thorough" else "; every 3rd combination in the quick tier",
-                "52000" if tier == "thorough" else "2600", 2500 if tier == "thorough" else 150, len(MERGE_MODELS)),
+                "40000" if tier == "thorough" else "2600", 2000 if tier == "thorough" else 150, len(MERGE_MODELS)),
         bound="2..%d devices, <=3 parallel links, <=3 rules, all registration orders; merge triples of 18 model kinds"
               % (5 if tier == "thorough" else 4))
 
